@@ -15,8 +15,8 @@ list) additionally named clauses of the property that the earlier changes had no
 `/verif`), same confirmation (`tools/confirm_seeded.sh`: demo passes unchanged / fails patched / the 94 003-id suite passes
 patched; the result line is in each `meta.json`), same bookkeeping. All {len(metas)} kept changes are detected by the quick tier
 of their property (`tools/selfcheck.sh`, seed 0). {len(missed)} of these {len(later)}
-({', '.join(missed)}) were missed when they arrived - or, in three cases the column says so, caught only by a clause that the audit of the
-same session had added hours before - and led to the strengthening named in the last column - the last column is therefore also the list of
+({', '.join(missed)}) were missed when they arrived - or, in a few cases the column says so, caught only weakly (by a clause that the audit of the
+same session had added hours before, by a single case, or only as a harness exception) - and led to the strengthening named in the last column - the last column is therefore also the list of
 blind spots the machinery had.
 
 | id | change (needs ...) | caught by (first clauses) | check strengthened? |
